@@ -65,6 +65,12 @@ pub fn run(cases: &[Vec<String>]) {
                 let u = vec![c[0].clone(), "c15".into(), c[3].clone(), c[4].clone()];
                 run_async_case(1, move || crate::c15::run_case(u))
             }
+            "stale" => {
+                // id c16 stale <setup> <events>: the dialog-layer harness of C10 (events K: register_usage with keys of dialogs that
+                // do not exist); its last token B=<dialogs>/<parked> is what is looked at
+                let (a, b) = (c[3].clone(), c[4].clone());
+                run_async_case(1, move || crate::c10::run_case(a, b, false))
+            }
             "srv" => {
                 // id c16 srv <kind> <reliable> <code> <t0> <events> <horizon> ...: a server transaction through the C06 harness; the
                 // table size at the horizon (after every protocol timer) is what is looked at
